@@ -20,6 +20,10 @@ var suites = map[string]suite{}
 var replayFile string
 
 func main() {
+	if os.Getenv("VERIF_CHILD_GEN") != "" {
+		childGenMain()
+		return
+	}
 	out := flag.String("out", "", "output directory")
 	tier := flag.String("tier", "quick", "quick|thorough")
 	seed := flag.Uint64("seed", 1, "PRNG seed")
